@@ -24,6 +24,38 @@ pub const SEEK_VARIANTS: &[&str] = &["none", "every-frame", "every-2nd", "every-
 
 /// Build a file of `nfull` full 16-sample frames + a short final frame of `tail` samples with a hand-made seek table.
 pub fn seek_file(ch: u8, bps: u32, variant: &str, declared: bool, nfull: usize, tail: usize) -> TestFile {
+    if let Some(shape) = variant.strip_prefix("fgen-variable-") {
+        // a variable-blocksize stream from the grammar builder (the crate's own encoder only writes fixed-blocksize ones):
+        // block lengths 16, 24, 16, 40, tail; frames carry SAMPLE numbers; fixed-predictor subframes
+        let lens = [16usize, 24, 16, 40, tail.max(1)];
+        let total: usize = lens.iter().sum();
+        let pcm = ident_pcm(ch, bps, total);
+        let chans = crate::codec::deinterleave(&pcm, ch as usize);
+        let mut frames = Vec::new();
+        let mut at = 0;
+        for l in lens {
+            let mut f = vph::fgen::plain_frame(chans.iter().map(|c| c[at..at + l].to_vec()).collect());
+            for sf in f.subframes.iter_mut() {
+                sf.kind = vph::fgen::SubKind::Fixed(1);
+                sf.res.method = (bps > 16) as u8;
+            }
+            frames.push(f);
+            at += l;
+        }
+        let mut st = vph::fgen::plain_stream(ch, bps as u8, 44100, frames);
+        st.variable = true;
+        st.total = if declared { vph::fgen::TotalSpec::Exact } else { vph::fgen::TotalSpec::Unknown };
+        st.seek = match shape {
+            "every-frame" => vph::fgen::SeekSpec::EveryFrame,
+            "every-frame+placeholders" => vph::fgen::SeekSpec::EveryFramePlusPlaceholders(2),
+            _ => vph::fgen::SeekSpec::None,
+        };
+        let b = vph::fgen::build(&st).expect("fgen seek corpus file");
+        let mut f = from_bytes(format!("ch{ch}-bps{bps}-{variant}-{}-16+24+16+40+{}", if declared { "declared" } else { "unknown" }, tail.max(1)), b.bytes, declared);
+        assert_eq!(f.pcm, pcm, "fgen seek corpus PCM");
+        f.pcm = pcm;
+        return f;
+    }
     let sig = Sig { rate: 44100, bps, ch };
     let pcm = ident_pcm(ch, bps, nfull * 16 + tail);
     let opt = Opt { seek: Seek::Off, pad: Pad::None, ..Opt::base16() };
